@@ -131,6 +131,8 @@ def run_v2(ctx, st):
         out = list(p.kevents(make_stream(data)))
     except Exception as e:      # noqa
         __import__('vxlib.symx.core', fromlist=['x']).proxy_rejected(e)
+        if __import__('os').environ.get('VX_DEBUG'):
+            __import__('traceback').print_exc()
         ctx.check('C12/v2/no-error', False, '%s: %s' % (type(e).__name__, e))
         ctx.reach()
         return
